@@ -79,6 +79,7 @@ def run(eng, rep) -> None:
     rep.rule("R20.1", "merge concatenates every declaration list of FcpV2, unconditionally, in order (self first)")
     rep.rule("R20.2", "module path = importing directory / all components joined + '.fcp'; nested transformer rooted at it")
     rep.rule("R20.3", "each failure branch of the import callback mentions the module file")
+    rep.rule("R20.5", "the imported module's text is read in the same mode (newline translation) as the top-level file")
     rep.rule("R20.4", "merge of the nested result lies on every success path of the callback")
     rep.assume("handler coverage of the nested parse/transform sites is decided by C11 (R11.1/R11.2)")
     v2 = prog.cls("fcp.specs.v2.FcpV2")
@@ -132,7 +133,39 @@ def run(eng, rep) -> None:
         if cs.how == "ctor" and any(c.startswith(tcls.qual + ".") for c in cs.callees):
             ctor = cs
     def is_read(cs):
-        return "builtins.open" in cs.externals or any(c.endswith("FileSystemProxy.read") or c.endswith("IFileSystemProxy.read") for c in cs.callees)
+        return "builtins.open" in cs.externals or any(c.endswith("FileSystemProxy.read") or c.endswith("IFileSystemProxy.read") for c in cs.callees) \
+            or (isinstance(cs.node.func, ast.Attribute) and cs.node.func.attr in ("read_text", "read_bytes") and (not cs.callees or cs.how == "by-name"))
+
+    def path_of(cs):
+        if isinstance(cs.node.func, ast.Attribute) and cs.node.func.attr in ("read_text", "read_bytes") and (not cs.callees or cs.how == "by-name"):
+            return cs.node.func.value
+        return cs.node.args[0] if cs.node.args else None
+
+    def read_mode(fn_node):
+        """how a function turns a file into text: 'text' (universal newlines), 'binary' (bytes decoded by hand: no newline
+        translation), 'raw-newlines' (text mode with newline= given) or None"""
+        modes = []
+        for n in walk_local(fn_node):
+            if not isinstance(n, ast.Call):
+                continue
+            if isinstance(n.func, ast.Name) and n.func.id == "open" or (isinstance(n.func, ast.Attribute) and n.func.attr == "open" and norm(n.func.value) in ("io", "codecs")):
+                md = n.args[1] if len(n.args) > 1 else next((k.value for k in n.keywords if k.arg == "mode"), None)
+                if md is not None and not isinstance(md, ast.Constant):
+                    modes.append(None)
+                elif md is not None and "b" in str(md.value):
+                    modes.append("binary")
+                elif any(k.arg == "newline" for k in n.keywords) or (isinstance(n.func, ast.Attribute) and norm(n.func.value) == "codecs"):
+                    modes.append("raw-newlines")
+                else:
+                    modes.append("text")
+            elif isinstance(n.func, ast.Attribute) and n.func.attr == "read_text":
+                modes.append("raw-newlines" if any(k.arg == "newline" for k in n.keywords) else "text")
+            elif isinstance(n.func, ast.Attribute) and n.func.attr == "read_bytes":
+                modes.append("binary")
+            elif isinstance(n.func, ast.Attribute) and n.func.attr == "open" and not n.args or (isinstance(n.func, ast.Attribute) and n.func.attr == "open" and n.args and isinstance(n.args[0], ast.Constant) and isinstance(n.args[0].value, str) and len(n.args[0].value) <= 3):
+                md = n.args[0].value if n.args else "r"
+                modes.append("binary" if "b" in md else ("raw-newlines" if any(k.arg == "newline" for k in n.keywords) else "text"))
+        return modes
     opens = [cs for cs in cg.sites_in(f) if is_read(cs)]
     read_helper = None
     if not opens:
@@ -157,7 +190,7 @@ def run(eng, rep) -> None:
     if ctor is None or not opens:
         raise AnalysisError("anchor vanished: nested transformer construction / module read in the import callback")
     # R20.2 - the path expression is the argument of the read
-    path_arg = opens[0].node.args[0] if opens[0].node.args else None
+    path_arg = path_of(opens[0])
     atoms = pv.of(path_arg) if path_arg is not None else set()
     children_all = any(a.startswith(cb.children_src) and not a[len(cb.children_src):].startswith("[") for a in atoms)
     partial = sorted(a for a in atoms if a.startswith(cb.children_src + "["))
@@ -194,9 +227,21 @@ def run(eng, rep) -> None:
             if v is None:
                 continue
             a_v = pv.of(v)
-            reads_file = ("call:.read" in a_v or "call:.read_text" in a_v or (read_helper is not None and "call:" + read_helper.name in a_v)) and bool(path_atoms_of(pv, path_arg) & a_v)
+            reads_file = ("call:.read" in a_v or "call:.read_text" in a_v or "call:.read_bytes" in a_v or (read_helper is not None and "call:" + read_helper.name in a_v)) and bool(path_atoms_of(pv, path_arg) & a_v)
             rep.check(reads_file, "R20.2", f.file, f.qual, "%s = %s" % (sname, norm(v, 50)), "module text is read from the resolved path",
                       "on some path the text parsed for the module is not read from the resolved module path (%s): a different file's declarations are imported" % ",".join(sorted(x for x in a_v if not x.startswith("const:"))[:4]))
+    # R20.5 - the module file becomes text the same way the top-level file does
+    top_modes = []
+    for q, fn_ in prog.functions.items():
+        if fn_.name == "read" and fn_.cls is not None and fn_.cls.name == "FileSystemProxy":
+            top_modes = read_mode(fn_.node)
+    mod_modes = read_mode(read_helper.node if read_helper is not None else f.node)
+    if top_modes and mod_modes and None not in top_modes + mod_modes:
+        same = set(top_modes) == set(mod_modes)
+        rep.check(same, "R20.5", f.file, (read_helper or f).qual, "module file read: %s; top-level file read: %s" % ("/".join(sorted(set(mod_modes))), "/".join(sorted(set(top_modes)))),
+                  "both reads translate newlines the same way", "the imported module is read as %s while the top-level file is read as %s: line endings (CRLF) are translated in one and not in the other, so a declaration that parses in the single file fails (or differs) once moved to a module" % ("/".join(sorted(set(mod_modes))), "/".join(sorted(set(top_modes)))))
+    else:
+        rep.undecided("R20.5", f.file, f.qual, "read modes", "form of a file read not recognised (top-level %s, module %s)" % (top_modes, mod_modes))
     # nested transformer rooted at the imported file
     a0 = ctor.node.args[0] if ctor.node.args else None
     a0_atoms = pv.of(a0) if a0 is not None else set()
